@@ -74,6 +74,7 @@ type PrintState struct {
 	AllParens            bool // print all expressions fully parenthesized.
 	prev                 Node
 	last                 string
+	rightOperand         bool // the expression being printed is the right operand of an infix expression
 }
 
 func DebugString(n Node) string {
@@ -298,7 +299,10 @@ func (ps *PrintState) needParen(t *token.Token) (bool, Priority) {
 	}
 	oldPrecedence := ps.ExpressionPrecedence
 	ps.ExpressionPrecedence = newPrecedence
-	return ps.AllParens || newPrecedence < oldPrecedence, oldPrecedence
+	// Infix operators group to the left: a right operand of the same precedence needs its parentheses, a - (b - c).
+	right := ps.rightOperand
+	ps.rightOperand = false
+	return ps.AllParens || newPrecedence < oldPrecedence || (right && newPrecedence == oldPrecedence), oldPrecedence
 }
 
 func (p PrefixExpression) PrettyPrint(out *PrintState) *PrintState {
@@ -356,13 +360,22 @@ func (i InfixExpression) PrettyPrint(out *PrintState) *PrintState {
 	if i.Right == nil {
 		out.Print("nil")
 	} else {
+		// (the same associative operator is regrouped to the left without parentheses: 1 + (2 + 3) prints 1 + 2 + 3)
+		r, isInfix := i.Right.(*InfixExpression)
+		out.rightOperand = isInfix && !(r.Type() == i.Type() && associative[i.Type()])
 		i.Right.PrettyPrint(out)
+		out.rightOperand = false
 	}
 	if needParen {
 		out.Print(")")
 	}
 	out.ExpressionPrecedence = oldPrecedence
 	return out
+}
+
+var associative = map[token.Type]bool{
+	token.PLUS: true, token.ASTERISK: true, token.AND: true, token.OR: true,
+	token.BITAND: true, token.BITOR: true, token.BITXOR: true,
 }
 
 type Boolean struct {
